@@ -254,6 +254,8 @@ func runC19(c *Ctx) {
 		c.Fail("EXACT-MATCH", "implementations", token.NoPos, "only %d TokenProvider implementations found", nImpl)
 	}
 
+	c19NoHeaderForwarding(c)
+	c19OneNetrcFile(c)
 	// (5) parsers
 	if q := p.Pkg("private/bufpkg/bufconnect"); q != nil {
 		c19SplitAsIs(c, q)
